@@ -62,6 +62,11 @@ def cursor_locals(ctx, b, m):
             D.closure(v)
             if any(payload(x, 'LineTo', 0) for x in D.visited):
                 cand.setdefault(d.local, set()).add(d.bb)
+    # state lives across ops: it is initialised before the op loop (a temporary inside one arm is not the cursor)
+    arm_blocks = set()
+    for tgt in m.arms.values():
+        arm_blocks |= arm_region(an.cfg, m.bb, tgt)
+    cand = {l: bl for l, bl in cand.items() if any(d.bb not in arm_blocks and d.bb != m.bb and d.kind != 'param' for d in an.defs_of.get(l, []))}
     # the cursor is updated on *every* path through the LineTo arm (a subpath-start record is only set conditionally)
     out = set()
     if 'LineTo' in m.arms:
@@ -189,6 +194,22 @@ def r16_2(ctx, b, m):
             a0 = fr[2][0]
             is_cursor = (a0[0] == 'phi' and a0[1] in curs) or (a0[0] == 'mem' and a0[1] in curs)
             ok = is_cursor and payload(fr[2][1], v, 0)
+        elif fr[0] == 'phi' and len(fr[2]) == 2:
+            # the same choice written as a match: Some(p) => p, None => first control point
+            some_ok = none_ok = False
+            for i2 in fr[2]:
+                d2 = an.defs[i2]
+                if d2.kind != 'assign':
+                    continue
+                t2 = strip_all(an.def_term(d2))
+                vg = variant_guards(ctx, b, d2.bb)
+                def on(variant):
+                    return any(vv == variant and strip_all(scr)[0] in ('phi', 'mem') and strip_all(scr)[1] in curs for scr, adt, vv, sb in vg)
+                if t2[0] == 'field' and t2[2] == '0' and t2[4] == 'Some' and strip_all(t2[1])[0] in ('phi', 'mem') and strip_all(t2[1])[1] in curs and on('Some'):
+                    some_ok = True
+                if payload(t2, v, 0) and on('None'):
+                    none_ok = True
+            ok = some_ok and none_ok
         else:
             D = Deps(an)
             D.closure(fr)
@@ -250,6 +271,30 @@ def r16_3(ctx, b, m):
                 return p0[0] == 'field' and p0[4] == 'Some' and is_call(p0[1], 'Iterator::next')
             pushes = [(pb, pct) for pb, d, pct in calls_in(ctx, b, region) if d and d.endswith('Vec::<T, A>::push') and from_next(pct)]
             okp = len(pushes) == 1
+            # the same loop as an internal iteration: flattened(..).for_each(|l| ops.push(LineTo(l)))
+            fes = [(fb, fct) for fb, d, fct in calls_in(ctx, b, region) if d and d.endswith('Iterator::for_each') and strip_all(fct[2][0]) == ct]
+            if not pushes and len(fes) == 1:
+                clo = strip_all(fes[0][1][2][1])
+                if clo[0] == 'mem':
+                    clo = shared.resolve_mem(an, clo)
+                okc2 = False
+                if clo[0] == 'agg' and clo[1] == 'closure':
+                    cbody = ctx.F.body(clo[2])
+                    if cbody is not None:
+                        can = ctx.an(cbody)
+                        cps = [(pb, pct) for pb, d, pct in calls_in(ctx, cbody) if d and d.endswith('Vec::<T, A>::push')]
+                        if len(cps) == 1:
+                            pv = strip_all(cps[0][1][2][1])
+                            okv = pv[0] == 'agg' and pv[3] == 'LineTo' and strip_all(pv[4][0][1]) == ('param', 2)
+                            okpath = can.cfg.must_pass_through(0, set([cps[0][0]]))[0]
+                            # the vector pushed to is the captured ops of the result
+                            ups = [strip_all(x[1]) for x in clo[4]]
+                            res_l = result_local(ctx, b)
+                            okup = any(field_path(u)[0] in (('mem', res_l), ('phi', res_l)) or (u[0] == 'ref' and strip_all(u[1]) in (('mem', res_l),)) for u in ups)
+                            okc2 = okv and okpath and okup and an.cfg.must_pass_through(m.arms[v], set([fes[0][0]]), exits=[an.cfg.ipdom(m.bb)] if an.cfg.ipdom(m.bb) is not None else None)[0]
+                ctx.check(okc2, R, key + '|%s every point pushed' % v, call_line(b, bi), 'every yielded point is pushed as LineTo (for_each)',
+                          'the %s arm does not push every point yielded by flattened() as a LineTo' % v)
+                okp = None
             if okp:
                 pv = strip_all(pushes[0][1][2][1])
                 okp = pv[0] == 'agg' and pv[3] == 'LineTo'
@@ -266,8 +311,9 @@ def r16_3(ctx, b, m):
                     nb = pt[1][3]
                     cyc = an.cfg.can_reach(pushes[0][0], [nb]) and an.cfg.can_reach(nb, [pushes[0][0]])
                     okp = cyc
-            ctx.check(okp, R, key + '|%s every point pushed' % v, call_line(b, bi), 'every yielded point is pushed as LineTo',
-                      'the %s arm does not push every point yielded by flattened() as a LineTo' % v)
+            if okp is not None:
+                ctx.check(okp, R, key + '|%s every point pushed' % v, call_line(b, bi), 'every yielded point is pushed as LineTo',
+                          'the %s arm does not push every point yielded by flattened() as a LineTo' % v)
         # cursor := Some(end point) somewhere in the arm
         okc = False
         for cur in curs:
@@ -378,3 +424,4 @@ def run(ctx):
     r16_4(ctx, b)
     import ras
     ras.r08_6(ctx)
+    ras.r10_4(ctx)
